@@ -54,6 +54,18 @@ fn main() {
             if !rfc3339_year { Some(format!("Timestamp prints as {text} (ISO 8601 expanded year, not RFC 3339); Timestamp::MIN prints as {}", Timestamp::MIN)) } else { None }
         });
     }
+    if on("F25") {
+        run("F25", || {
+            let r = jiff::SignedDuration::try_from_secs_f64(9223372036854775808.0);
+            match r { Ok(d) => Some(format!("try_from_secs_f64(2^63) = Ok({} s, {} ns) although 2^63 s is unrepresentable", d.as_secs(), d.subsec_nanos())), Err(_) => None }
+        });
+    }
+    if on("F26") {
+        run("F26", || {
+            let r = jiff::civil::Date::strptime("%A, %B %d, %Y", "Tuesday, July 16, 2024");
+            match r { Err(e) => Some(format!("strptime(%A, \"Tuesday, ...\") = Err({e})")), Ok(_) => None }
+        });
+    }
     if on("F8") {
         run("F8", || {
             let tz = TimeZone::posix("EST5EDT,0/0,J365/25").ok()?;
